@@ -17,24 +17,25 @@ from props import srv_world as W
 ALPHABET = ["G", "C", "Lf", "Lr", "B-silent", "B-bad-token", "B-reset-early", "X"]
 
 
-def replay_script(prop, kind, auth, hist):
+def replay_script(prop, kind, auth, hist, slow=False):
     return '''# replay of a counterexample found by /verif (property %s): the same history of client events, executed by
 # CPython on the real rpyc/utils/server.py over the socket / thread / process model of props/srv_world.py
 import sys
 sys.path.insert(0, __import__("os").environ.get("VERIF_REPO", "/repo")); sys.path.insert(0, "/verif")
 from props import srv_world as W
-bad, summary = W.run_history(%r, %r, %r, %r)
+bad, summary = W.run_history(%r, %r, %r, %r, slow_hooks=%r)
 for b in bad: print(b)
 print(summary)
 if bad:
     print("REPRODUCED"); sys.exit(1)
-''' % (prop, kind, auth, hist, prop)
+''' % (prop, kind, auth, hist, prop, slow)
 
 
 def explore(run, interp, prop, alphabet, length, kinds):
     def ob(o):
         o.symbolic = ["server class: %s; authenticator: none / token-reading / token-reading and handing back a new socket object, as ssl wrapping does (exhaustive)" % kinds,
                       "history of %d external events, each any applicable one of %s" % (length, alphabet)]
+        o.symbolic.append("thread-pool server: disconnect hooks return at once / take until the next external event")
         o.bounds = {"history_length": length, "schedules": "settled: after every event all runnable threads/processes run to quiescence, round robin",
                     "pool_threads": 2}
         o.stubs = ["sockets, listener, poll, threads (spawn/join), queue, fork/_exit, signal, time: props/srv_world.py",
@@ -44,9 +45,10 @@ def explore(run, interp, prop, alphabet, length, kinds):
         def harness(c):
             kind = kinds[c.choose(len(kinds), "server")]
             auth = W.AUTH_KINDS[c.choose(len(W.AUTH_KINDS), "authenticator")]
-            sc = W.Scenario(kind, auth, interp)
+            slow = kind == "pool" and c.choose(2, "slow-disconnect-hook") == 1
+            sc = W.Scenario(kind, auth, interp, slow)
             hist = []
-            c.notes.update(kind=kind, auth=auth, hist=hist)
+            c.notes.update(kind=kind, auth=auth, hist=hist, slow=slow)
             try:
                 for _ in range(length):
                     app = sc.applicable(alphabet)
@@ -74,8 +76,8 @@ def explore(run, interp, prop, alphabet, length, kinds):
                 sig = "%s:%s" % (n["kind"], code)
                 if any(v["signature"] == sig for v in o.violations):
                     continue
-                run.replay(o, sig, "%s (server %s, authenticator %s, history %s)" % (what, n["kind"], n["auth"] or "none", n["hist"]),
-                           replay_script(prop, n["kind"], n["auth"], list(n["hist"])))
+                run.replay(o, sig, "%s (server %s, authenticator %s, %shistory %s)" % (what, n["kind"], n["auth"] or "none", "disconnect hooks that take time, " if n["slow"] else "", n["hist"]),
+                           replay_script(prop, n["kind"], n["auth"], list(n["hist"]), n["slow"]))
 
         n_, incomplete = par_explore(run, o, harness, on_path, acc, split_depth=4)
         o.paths = dict(acc.counts, total=n_)
